@@ -5,7 +5,7 @@
 cd "$(dirname "$0")"
 rc=0
 for s in ${SEEDS:-0 1 2 3 4 5 6 7}; do
-  for c in $(python3 -c "import json;print(' '.join(x['property_id'] for x in json.load(open('MANIFEST.json'))['checks']))"); do
+  for c in ${CHECKS:-$(python3 -c "import json;print(' '.join(x['property_id'] for x in json.load(open('MANIFEST.json'))['checks']))")}; do
     out=$(VERIF_SEED=$s ./run_check.sh $c ${TIER:-quick} 2>&1); r=$?
     echo "seed=$s $c rc=$r $(echo "$out" | grep -E '^C[0-9]+ |VIOLATION|KNOWN|INFRA' | tr '\n' ' ')"
     [ $r -ne 0 ] && rc=1
